@@ -30,6 +30,80 @@ type FuncInfo struct {
 	Con  *Contract
 	// ordinals of syntactic sites
 	loops []ast.Stmt
+
+	expOnce sync.Once
+	exp     *Expansion
+}
+
+// Expansion of a function: its text with the bodies of the small, contract-less helpers of the same package it calls
+// spliced in after the call (each helper once, nesting <= 2). Loop ordinals and "callee#n" sites named in a contract
+// are counted over this expansion, so extracting statements into a helper function does not detach the clauses that
+// were attached to them (the helper is executed in place anyway, see autoInlinable).
+type expSite struct {
+	node  ast.Node
+	owner *FuncInfo
+}
+
+type Expansion struct {
+	loops []expSite
+	calls []expSite
+	// spliced helpers in splice order, and for each the call chain (outermost first) through which it was spliced
+	helpers []*FuncInfo
+	via     map[*FuncInfo][]expVia
+}
+
+type expVia struct {
+	in   *FuncInfo // the function whose text contains the call
+	call *ast.CallExpr
+}
+
+func (p *Program) expansion(fi *FuncInfo) *Expansion {
+	fi.expOnce.Do(func() {
+		e := &Expansion{via: map[*FuncInfo][]expVia{}}
+		done := map[*FuncInfo]bool{fi: true}
+		var walk func(owner *FuncInfo, depth int)
+		walk = func(owner *FuncInfo, depth int) {
+			var stack []ast.Node
+			ast.Inspect(owner.Decl.Body, func(n ast.Node) bool {
+				if n == nil {
+					top := stack[len(stack)-1]
+					stack = stack[:len(stack)-1]
+					ce, ok := top.(*ast.CallExpr)
+					if !ok || depth >= 2 {
+						return true
+					}
+					h := p.funcOf(calleeOf(owner.Pkg.TypesInfo, ce))
+					if h == nil || done[h] || h.Pkg != fi.Pkg || h.Decl == nil || h.Decl.Body == nil {
+						return true
+					}
+					if p.CS != nil && p.CS.Funcs[h.Key] != nil {
+						return true
+					}
+					if !p.staticInlinable(h) {
+						return true
+					}
+					done[h] = true
+					e.helpers = append(e.helpers, h)
+					e.via[h] = append(append([]expVia{}, e.via[owner]...), expVia{in: owner, call: ce})
+					walk(h, depth+1)
+					return true
+				}
+				stack = append(stack, n)
+				switch n := n.(type) {
+				case *ast.ForStmt, *ast.RangeStmt:
+					e.loops = append(e.loops, expSite{n, owner})
+				case *ast.CallExpr:
+					e.calls = append(e.calls, expSite{n, owner})
+				}
+				return true
+			})
+		}
+		if fi.Decl != nil && fi.Decl.Body != nil {
+			walk(fi, 0)
+		}
+		fi.exp = e
+	})
+	return fi.exp
 }
 
 type Program struct {
@@ -43,6 +117,10 @@ type Program struct {
 	PredByFn map[*types.Func]*Pred
 	SynthSrc map[string]string // pkg short -> synthetic source (for reports)
 	inlinable map[string]bool
+	inlMu     sync.Mutex
+	ownerOnce   sync.Once
+	callersOf   map[*types.Func]map[*FuncInfo]bool
+	usedAsValue map[*types.Func]bool
 	ifaceOnce sync.Once
 	ifaceOf   map[string][]string // implementation key -> interface-method contract keys
 	ModSets  map[*types.Func]map[string]bool
@@ -508,7 +586,40 @@ func synthesize(prog *Program) (map[string]string, map[string]*SpecFn, error) {
 			continue
 		}
 		// loop and at-call clauses see the locals in scope
-		loops := collectLoops(fi.Decl)
+		loops := collectLoops(prog, fi)
+		if os.Getenv("VERIF_SHOW_EXPANSION") != "" {
+			if e := prog.expansion(fi); len(e.helpers) > 0 {
+				var hs []string
+				for _, h := range e.helpers {
+					hs = append(hs, h.Key)
+				}
+				for i, l := range e.loops {
+					if l.owner != fi {
+						fmt.Fprintf(os.Stderr, "EXPANSION %s: loop %d is in %s (spliced: %s)\n", key, i+1, l.owner.Key, strings.Join(hs, ","))
+					}
+				}
+				pl := 0
+				for i, l := range e.loops {
+					if l.owner == fi {
+						pl++
+						if pl != i+1 {
+							fmt.Fprintf(os.Stderr, "EXPANSION-MAP %s loop %d -> %d\n", key, pl, i+1)
+						}
+					}
+				}
+				proper, all := map[string]int{}, map[string]int{}
+				for _, c := range e.calls {
+					n := callName(c.node.(*ast.CallExpr))
+					all[n]++
+					if c.owner == fi {
+						proper[n]++
+						if proper[n] != all[n] {
+							fmt.Fprintf(os.Stderr, "EXPANSION %s: call %s#%d is now %s#%d\n", key, n, proper[n], n, all[n])
+						}
+					}
+				}
+			}
+		}
 		for n, ls := range con.Loops {
 			if n < 1 || n > len(loops) {
 				prog.CS.Stale = append(prog.CS.Stale, fmt.Sprintf("%s (%s:%d): contract names loop %d but the function has %d loops", key, con.File, con.Line, n, len(loops)))
@@ -516,13 +627,15 @@ func synthesize(prog *Program) (map[string]string, map[string]*SpecFn, error) {
 				continue
 			}
 			lp := loops[n-1]
-			lparams, lroles := localsParams(pkg, fi, lp, sigParams, roles)
+			lparams, lroles := localsParams(prog, pkg, fi, lp, sigParams, roles)
 			for _, c := range ls.Invariants {
+				noteLocals(c)
 				if err := emit(con.Pkg, c, tparams, lparams, lroles, "bool"); err != nil {
 					return nil, nil, err
 				}
 			}
 			if ls.Decreases != nil {
+				noteLocals(ls.Decreases)
 				if err := emit(con.Pkg, ls.Decreases, tparams, lparams, lroles, "int"); err != nil {
 					return nil, nil, err
 				}
@@ -531,7 +644,7 @@ func synthesize(prog *Program) (map[string]string, map[string]*SpecFn, error) {
 		for _, c := range con.Asserts {
 			if c.At == "return" {
 				// checked at every return with the function-level locals in scope
-				lparams, lroles := localsParams(pkg, fi, &ast.Ident{NamePos: fi.Decl.Body.Rbrace - 1}, sigParams, roles)
+				lparams, lroles := localsParams(prog, pkg, fi, &ast.Ident{NamePos: fi.Decl.Body.Rbrace - 1}, sigParams, roles)
 				if err := emit(con.Pkg, c, tparams, lparams, lroles, "bool"); err != nil {
 					return nil, nil, err
 				}
@@ -547,7 +660,7 @@ func synthesize(prog *Program) (map[string]string, map[string]*SpecFn, error) {
 			// with a wildcard the locals visible at the LAST matching call are offered (a clause may only use
 			// names that are in scope at every matching call; go/types reports otherwise)
 			site := sites[0]
-			lparams, lroles := localsParams(pkg, fi, site, sigParams, roles)
+			lparams, lroles := localsParams(prog, pkg, fi, site, sigParams, roles)
 			// the arguments of the call are visible as arg0, arg1, ...
 			if ce, ok := site.(*ast.CallExpr); ok {
 				q := qualifierFor(pkg.Types)
@@ -569,6 +682,7 @@ func synthesize(prog *Program) (map[string]string, map[string]*SpecFn, error) {
 					lroles = append(lroles, fmt.Sprintf("callarg:arg%d", i))
 				}
 			}
+			noteLocals(c)
 			if err := emit(con.Pkg, c, tparams, lparams, lroles, "bool"); err != nil {
 				return nil, nil, err
 			}
@@ -746,23 +860,38 @@ func isErrorLike(t types.Type) bool {
 
 // collectLoops returns the for/range statements of a function in source order
 // (function literals included).
-func collectLoops(d *ast.FuncDecl) []ast.Stmt {
+func collectLoops(prog *Program, fi *FuncInfo) []ast.Stmt {
 	var loops []ast.Stmt
-	ast.Inspect(d.Body, func(n ast.Node) bool {
-		switch n := n.(type) {
-		case *ast.ForStmt:
-			loops = append(loops, n)
-		case *ast.RangeStmt:
-			loops = append(loops, n)
-		}
-		return true
-	})
+	for _, l := range prog.expansion(fi).loops {
+		loops = append(loops, l.node.(ast.Stmt))
+	}
 	return loops
 }
 
+// siteOwner: the function (fi itself or a spliced helper) whose text contains the node
+func (p *Program) siteOwner(fi *FuncInfo, node ast.Node) *FuncInfo {
+	for _, h := range p.expansion(fi).helpers {
+		if node.Pos() >= h.Decl.Pos() && node.Pos() <= h.Decl.End() {
+			return h
+		}
+	}
+	return fi
+}
+
 // localsParams extends the signature parameter list with the locals visible at node.
-func localsParams(pkg *packages.Package, fi *FuncInfo, node ast.Node, sigParams string, sigRoles []string) (string, []string) {
+// siteLocals: clause -> the locals (name -> printed type) offered to it at its site (see rebindAtSite)
+var siteLocals = map[*Clause]map[string]string{}
+var lastLocals map[string]string
+
+func noteLocals(c *Clause) {
+	if c != nil && lastLocals != nil {
+		siteLocals[c] = lastLocals
+	}
+}
+
+func localsParams(prog *Program, pkg *packages.Package, fi *FuncInfo, node ast.Node, sigParams string, sigRoles []string) (string, []string) {
 	q := qualifierFor(pkg.Types)
+	lastLocals = map[string]string{}
 	used := map[string]bool{}
 	for _, r := range sigRoles {
 		used[r[strings.Index(r, ":")+1:]] = true
@@ -772,33 +901,66 @@ func localsParams(pkg *packages.Package, fi *FuncInfo, node ast.Node, sigParams 
 		parts = append(parts, sigParams)
 	}
 	roles := append([]string{}, sigRoles...)
-	pos := node.Pos()
-	scope := pkg.Types.Scope().Innermost(pos)
-	fnScope := pkg.TypesInfo.Scopes[fi.Decl.Type]
-	var chain []*types.Scope
-	for s := scope; s != nil; s = s.Parent() {
-		chain = append(chain, s)
-		if s == fnScope {
-			break
-		}
+	type scopeAt struct {
+		s   *types.Scope
+		pos token.Pos
+		own bool // the loop's own scope: all its names are visible
 	}
+	var chain []scopeAt
 	// for range/for statements, also the loop's own scope (key/value/init vars)
 	if s, ok := pkg.TypesInfo.Scopes[node]; ok {
-		chain = append([]*types.Scope{s}, chain...)
+		chain = append(chain, scopeAt{s, node.Pos(), true})
 	}
-	for _, s := range chain {
-		names := s.Names()
+	addChain := func(in *FuncInfo, pos token.Pos) {
+		fnScope := pkg.TypesInfo.Scopes[in.Decl.Type]
+		for s := pkg.Types.Scope().Innermost(pos); s != nil; s = s.Parent() {
+			chain = append(chain, scopeAt{s, pos, false})
+			if s == fnScope {
+				break
+			}
+		}
+	}
+	// a site inside a spliced helper sees the helper's names first, then those visible at the call through which the
+	// helper was spliced, and so on outwards (see Expansion)
+	owner := prog.siteOwner(fi, node)
+	addChain(owner, node.Pos())
+	// variables declared by the very statement that contains the call through which a helper was spliced
+	// (`xs := helper(...)`) have no value yet while the helper runs
+	notYet := map[*types.Var]bool{}
+	if owner != fi {
+		via := prog.expansion(fi).via[owner]
+		for i := len(via) - 1; i >= 0; i-- {
+			addChain(via[i].in, via[i].call.Pos())
+			call := via[i].call
+			ast.Inspect(via[i].in.Decl.Body, func(n ast.Node) bool {
+				if as, ok := n.(*ast.AssignStmt); ok && as.Tok == token.DEFINE && as.Pos() <= call.Pos() && call.End() <= as.End() {
+					for _, l := range as.Lhs {
+						if id, ok := l.(*ast.Ident); ok {
+							if v, ok := pkg.TypesInfo.Defs[id].(*types.Var); ok {
+								notYet[v] = true
+							}
+						}
+					}
+				}
+				return true
+			})
+		}
+	}
+	for _, sa := range chain {
+		names := sa.s.Names()
 		for _, n := range names {
-			v, ok := s.Lookup(n).(*types.Var)
-			if !ok || used[n] || n == "_" {
+			v, ok := sa.s.Lookup(n).(*types.Var)
+			if !ok || used[n] || n == "_" || notYet[v] {
 				continue
 			}
-			if s != pkg.TypesInfo.Scopes[node] && v.Pos() >= pos {
+			if !sa.own && v.Pos() >= sa.pos {
 				continue
 			}
 			used[n] = true
-			parts = append(parts, n+" "+types.TypeString(v.Type(), q))
+			ts := types.TypeString(v.Type(), q)
+			parts = append(parts, n+" "+ts)
 			roles = append(roles, "local:"+n)
+			lastLocals[n] = ts
 		}
 	}
 	// ghost loop variables
@@ -826,12 +988,11 @@ func findCallSites(prog *Program, fi *FuncInfo, at string) []ast.Node {
 	}
 	name := strings.TrimSuffix(at, "#*")
 	var out []ast.Node
-	ast.Inspect(fi.Decl.Body, func(x ast.Node) bool {
-		if ce, ok := x.(*ast.CallExpr); ok && callName(ce) == name {
+	for _, c := range prog.expansion(fi).calls {
+		if ce := c.node.(*ast.CallExpr); callName(ce) == name {
 			out = append(out, ce)
 		}
-		return true
-	})
+	}
 	return out
 }
 
@@ -842,24 +1003,15 @@ func findCallSite(prog *Program, fi *FuncInfo, at string) ast.Node {
 		fmt.Sscanf(at[i+1:], "%d", &n)
 	}
 	count := 0
-	var found ast.Node
-	ast.Inspect(fi.Decl.Body, func(x ast.Node) bool {
-		if found != nil {
-			return false
-		}
-		ce, ok := x.(*ast.CallExpr)
-		if !ok {
-			return true
-		}
-		if callName(ce) == name {
+	for _, c := range prog.expansion(fi).calls {
+		if ce := c.node.(*ast.CallExpr); callName(ce) == name {
 			count++
 			if count == n {
-				found = ce
+				return ce
 			}
 		}
-		return true
-	})
-	return found
+	}
+	return nil
 }
 
 func callName(ce *ast.CallExpr) string {
@@ -892,19 +1044,29 @@ func selectorChain(e ast.Expr) (string, bool) {
 // whose clauses caused them.
 func staleOwners(errText string, synth map[string]string, index map[string]*SpecFn) []string {
 	set := map[string]bool{}
-	re := regexp.MustCompile(`([^\s:]+)/zz_spec_synth_verif\.go:(\d+):\d+`)
-	dirToShort := map[string]string{}
-	for d, short := range pkgDirs {
-		dirToShort[d] = short
+	for _, sf := range specFnsAt(errText, synth, index) {
+		if sf.Owner != "" {
+			set[sf.Owner] = true
+		}
 	}
+	var out []string
+	for k := range set {
+		out = append(out, k)
+	}
+	sort.Strings(out)
+	return out
+}
+
+// specFnsAt: the specification functions at the positions mentioned in a type-checker message
+func specFnsAt(errText string, synth map[string]string, index map[string]*SpecFn) []*SpecFn {
+	var out []*SpecFn
+	seen := map[*SpecFn]bool{}
+	re := regexp.MustCompile(`([^\s:]+)/zz_spec_synth_verif\.go:(\d+):\d+`)
 	for _, m := range re.FindAllStringSubmatch(errText, -1) {
 		dir := m[1]
 		var short string
 		for d, sh := range pkgDirs {
 			if d == "." {
-				if !strings.Contains(strings.TrimPrefix(dir, "/"), "/") || strings.HasSuffix(dir, "/repo") {
-					// root package candidates are resolved below by exact suffix
-				}
 				continue
 			}
 			if strings.HasSuffix(dir, "/"+d) {
@@ -934,19 +1096,14 @@ func staleOwners(errText string, synth map[string]string, index map[string]*Spec
 		if i := strings.IndexAny(name, "[("); i >= 0 {
 			name = name[:i]
 		}
-		if sf, ok := index[short+"."+name]; ok && sf.Owner != "" {
-			set[sf.Owner] = true
+		if sf, ok := index[short+"."+name]; ok && !seen[sf] {
+			seen[sf] = true
+			out = append(out, sf)
 		}
 	}
-	var out []string
-	for k := range set {
-		out = append(out, k)
-	}
-	sort.Strings(out)
 	return out
 }
 
-// unusedImports: "<short>|<import path>" for `"path" imported and not used` errors in synthetic files
 func unusedImports(errText string) []string {
 	re := regexp.MustCompile(`([^\s:]+)/zz_spec_synth_verif\.go:\d+:\d+: "([^"]+)" imported and not used`)
 	var out []string
@@ -969,6 +1126,47 @@ var BaselineLocals map[string]map[string]string
 
 // rebound: contract key -> old name -> true (each name is re-bound at most once)
 var rebound = map[string]map[string]bool{}
+
+// rebindAtSite: see rebindRenamedLocals. The candidates are the locals offered to the clause at its site (siteLocals)
+// that have the recorded type and that the baseline does not know; exactly one must exist.
+var reboundAt = map[*Clause]map[string]bool{}
+
+func rebindAtSite(cs *ContractSet, pos, owner, name, want string, synth map[string]string, index map[string]*SpecFn) bool {
+	changed := false
+	for _, sf := range specFnsAt(pos, synth, index) {
+		c := sf.Clause
+		if c == nil || sf.Owner != owner || reboundAt[c][name] {
+			continue
+		}
+		locals := siteLocals[c]
+		if _, visible := locals[name]; visible || locals == nil {
+			continue
+		}
+		var cand []string
+		for n, ts := range locals {
+			if _, known := BaselineLocals[owner][n]; known {
+				continue
+			}
+			if ts == want {
+				cand = append(cand, n)
+			}
+		}
+		if len(cand) != 1 {
+			continue
+		}
+		wordRe := regexp.MustCompile(`(^|[^.\w])` + regexp.QuoteMeta(name) + `($|[^\w])`)
+		for wordRe.MatchString(c.Text) {
+			c.Text = wordRe.ReplaceAllString(c.Text, "${1}"+cand[0]+"${2}")
+		}
+		if reboundAt[c] == nil {
+			reboundAt[c] = map[string]bool{}
+		}
+		reboundAt[c][name] = true
+		cs.Rebound = append(cs.Rebound, fmt.Sprintf("%s (%s:%d): local %s is not visible at the clause's site any more; %s is the only new local of type %s there: clause re-bound", owner, c.File, c.Line, name, cand[0], want))
+		changed = true
+	}
+	return changed
+}
 
 func rebindRenamedLocals(prog *Program, cs *ContractSet, errText string, synth map[string]string, index map[string]*SpecFn) bool {
 	if len(BaselineLocals) == 0 {
@@ -1016,6 +1214,12 @@ func rebindRenamedLocals(prog *Program, cs *ContractSet, errText string, synth m
 			return true
 		})
 		if stillThere || len(cand) != 1 {
+			// the name still exists somewhere in the function (or several candidates do), but not at the site of
+			// this clause -- typically the loop or call the clause is attached to was moved into a helper whose
+			// variables are named differently: re-bind this one clause among the locals visible at its site
+			if rebindAtSite(cs, m[1], owner, name, want, synth, index) {
+				changed = true
+			}
 			continue
 		}
 		var neu string
